@@ -63,3 +63,24 @@ pub async fn lib_compress(args: &[String]) {
     create_archive(input, &mut out, &opts).await.expect("create_archive");
     std::fs::write(&args[1], out).unwrap();
 }
+
+/// codec <in: one hex chunk per line> <out: one hex compressed chunk per line> <brotli level>
+pub fn codec(args: &[String]) {
+    let level: u32 = args[2].parse().unwrap();
+    let text = std::fs::read_to_string(&args[0]).unwrap();
+    let mut out = String::new();
+    for line in text.lines() {
+        let chunk = bitar::Chunk::from(unhex(line));
+        let c = chunk.compress(Some(Compression::brotli(level).unwrap())).unwrap();
+        let (_algo, bytes) = c.into_inner();
+        if bytes.is_empty() {
+            out.push('-');
+        } else {
+            for b in bytes.iter() {
+                out.push_str(&format!("{:02x}", b));
+            }
+        }
+        out.push('\n');
+    }
+    std::fs::write(&args[1], out).unwrap();
+}
